@@ -10,7 +10,7 @@
    Numbers are exact rationals (float64 rounding is not modelled; the correspondence uses dyadic
    values for which float64 arithmetic is exact).  int and float64 row values are both [VNum]:
    the engine converts either with cast.ToFloat64E before it computes or compares. *)
-From Coq Require Import Strings.String Strings.Ascii Qabs.
+From Coq Require Import Qabs.
 From SV Require Export Model.ExprSyntax.
 
 Inductive xvalue := VNull | VNum (q : Q) | VStr (s : bytes) | VBool (b : bool).
@@ -54,6 +54,11 @@ Definition qis_nat (q : Q) : option nat :=
   end.
 Fixpoint qpown (x : Q) (n : nat) : Q :=
   match n with O => 1 | S n' => qmul x (qpown x n') end.
+(* comparison of a model number with a float64 result of the implementation: equal, or within
+   2^-40 relative error (inexact float64 division).  Used by the driver only. *)
+Definition q_close (a b : Q) : bool :=
+  qeqb a b ||
+  Qle_bool (Qabs (a - b)) ((1 # 1099511627776) * (if Qle_bool (Qabs a) (Qabs b) then Qabs b else Qabs a)).
 (* math.Round: half away from zero *)
 Definition qround (q : Q) : Z :=
   if Qle_bool 0 q then qfloor (q + (1 # 2)) else qceil (q - (1 # 2)).
@@ -200,8 +205,23 @@ Definition ascii_lower (c : byte) : byte := if N.leb 65 c && N.leb c 90 then (c 
 Definition all_ascii (s : bytes) : bool := forallb (fun c => N.ltb c 128) s.
 
 
-Fixpoint bs (s : string) : bytes :=
-  match s with EmptyString => [] | String a r => N_of_ascii a :: bs r end.
+(* function names as byte strings *)
+Definition nm_abs : bytes := [97;98;115]%N.
+Definition nm_ceil : bytes := [99;101;105;108]%N.
+Definition nm_ceiling : bytes := [99;101;105;108;105;110;103]%N.
+Definition nm_coalesce : bytes := [99;111;97;108;101;115;99;101]%N.
+Definition nm_concat : bytes := [99;111;110;99;97;116]%N.
+Definition nm_floor : bytes := [102;108;111;111;114]%N.
+Definition nm_greatest : bytes := [103;114;101;97;116;101;115;116]%N.
+Definition nm_if_null : bytes := [105;102;95;110;117;108;108]%N.
+Definition nm_least : bytes := [108;101;97;115;116]%N.
+Definition nm_len : bytes := [108;101;110]%N.
+Definition nm_length : bytes := [108;101;110;103;116;104]%N.
+Definition nm_lower : bytes := [108;111;119;101;114]%N.
+Definition nm_mod : bytes := [109;111;100]%N.
+Definition nm_round : bytes := [114;111;117;110;100]%N.
+Definition nm_sign : bytes := [115;105;103;110]%N.
+Definition nm_upper : bytes := [117;112;112;101;114]%N.
 
 (* cast.ToStringE on the values whose rendering is exact text (numbers are rendered by strconv:
    not modelled) *)
@@ -254,19 +274,19 @@ Fixpoint fn_extreme (gt : bool) (cur : xvalue) (args : list xvalue) : xfres :=
   end.
 
 Definition fn_call (name : bytes) (args : list xvalue) : xfres :=
-  if bytes_eqb name (bs "abs") then fn_num1 (fun q => VNum (qn (Qabs q))) args
-  else if bytes_eqb name (bs "sign") then
+  if bytes_eqb name nm_abs then fn_num1 (fun q => VNum (qn (Qabs q))) args
+  else if bytes_eqb name nm_sign then
     fn_num1 (fun q => VNum (if qltb 0 q then 1 else if qltb q 0 then inject_Z (-1) else 0)) args
-  else if bytes_eqb name (bs "floor") then fn_num1 (fun q => VNum (qofz (qfloor q))) args
-  else if bytes_eqb name (bs "ceil") || bytes_eqb name (bs "ceiling") then fn_num1 (fun q => VNum (qofz (qceil q))) args
-  else if bytes_eqb name (bs "round") then
+  else if bytes_eqb name nm_floor then fn_num1 (fun q => VNum (qofz (qfloor q))) args
+  else if bytes_eqb name nm_ceil || bytes_eqb name nm_ceiling then fn_num1 (fun q => VNum (qofz (qceil q))) args
+  else if bytes_eqb name nm_round then
     match args with
     | [VNull] => FOk VNull
     | [_] => fn_num1 (fun q => VNum (qofz (qround q))) args
     | [_; _] => FUnmodelled
     | _ => FErr
     end
-  else if bytes_eqb name (bs "mod") then
+  else if bytes_eqb name nm_mod then
     match args with
     | [x; y] => match to_float x with
                 | None => FErr
@@ -277,27 +297,27 @@ Definition fn_call (name : bytes) (args : list xvalue) : xfres :=
                 end
     | _ => FErr
     end
-  else if bytes_eqb name (bs "coalesce") then
+  else if bytes_eqb name nm_coalesce then
     match args with
     | [] => FErr
     | _ => FOk ((fix go (l : list xvalue) : xvalue :=
                    match l with [] => VNull | VNull :: r => go r | v :: _ => v end) args)
     end
-  else if bytes_eqb name (bs "if_null") then
+  else if bytes_eqb name nm_if_null then
     match args with
     | [VNull; y] => FOk y
     | [x; _] => FOk x
     | _ => FErr
     end
-  else if bytes_eqb name (bs "greatest") || bytes_eqb name (bs "least") then
+  else if bytes_eqb name nm_greatest || bytes_eqb name nm_least then
     match args with
     | [] => FErr
     | VNull :: _ => FOk VNull
-    | v :: r => fn_extreme (bytes_eqb name (bs "greatest")) v r
+    | v :: r => fn_extreme (bytes_eqb name nm_greatest) v r
     end
-  else if bytes_eqb name (bs "upper") then fn_str1 (fun s => VStr (map ascii_upper s)) args
-  else if bytes_eqb name (bs "lower") then fn_str1 (fun s => VStr (map ascii_lower s)) args
-  else if bytes_eqb name (bs "length") || bytes_eqb name (bs "len") then
+  else if bytes_eqb name nm_upper then fn_str1 (fun s => VStr (map ascii_upper s)) args
+  else if bytes_eqb name nm_lower then fn_str1 (fun s => VStr (map ascii_lower s)) args
+  else if bytes_eqb name nm_length || bytes_eqb name nm_len then
     match args with
     | [VStr s] => FOk (VNum (qofz (Z.of_nat (length s))))
     | [VNull] => FOk (VNum 0)
@@ -305,7 +325,7 @@ Definition fn_call (name : bytes) (args : list xvalue) : xfres :=
     | [VNum _] => FUnmodelled
     | _ => FErr
     end
-  else if bytes_eqb name (bs "concat") then
+  else if bytes_eqb name nm_concat then
     match args with [] => FErr | _ => fn_concat args [] end
   else FUnmodelled.
 
